@@ -131,6 +131,7 @@ func (h *dbHarness) execSnap(op *DBOp) {
 				h.closeIter(id)
 			}
 		}
+		delete(h.snaps, op.ID) // before Close: see closeIter
 		var err error
 		if s.efos != nil {
 			err = s.efos.Close()
@@ -140,7 +141,6 @@ func (h *dbHarness) execSnap(op *DBOp) {
 		if err != nil {
 			h.opErr("snapshot-close", err)
 		}
-		delete(h.snaps, op.ID)
 	case "snapget":
 		s := h.snaps[op.ID]
 		if s == nil {
@@ -276,10 +276,13 @@ func (h *dbHarness) closeIter(id int) {
 	if obj == nil {
 		return
 	}
+	// From the moment Close is called the iterator pins nothing: remove it
+	// from the table first, so monitors that run while Close is in progress
+	// (the file deleter, C39) do not count it as open.
+	delete(h.iters, id)
 	if err := obj.it.Close(); err != nil {
 		h.opErr("iterator-close", err)
 	}
-	delete(h.iters, id)
 }
 
 func sortedIDs[T any](m map[int]T) []int {
@@ -301,12 +304,12 @@ func (h *dbHarness) closeAllReaders() {
 	}
 	for _, id := range sortedIDs(h.snaps) {
 		s := h.snaps[id]
+		delete(h.snaps, id)
 		if s.efos != nil {
 			s.efos.Close()
 		} else {
 			s.s.Close()
 		}
-		delete(h.snaps, id)
 	}
 }
 
